@@ -58,7 +58,7 @@ def build(c):
         steps += [["close", f"s{i}", "rst"], ["await_closed", f"s{i}"]]
     dm = {"b": 0, "a": "@s0", "x": 77}[c["dest"]]
     for n in range(c.get("npub", 1)):
-        steps.append(["pub", "p", c["type"], dm, 0, 16])
+        steps.append(["pub", "p", c["type"], dm, c.get("dh", 0), 16])     # (a valid destination host changes nothing about who is served)
         nw = [f"s{i}" for i in c["nw"]] + (["m"] if c["mon_nw"] else []) + (["p"] if c.get("pub_sub") == "nw" else [])
         steps.append(["round", {"only": ["p"], "order": ["p"], "nw": nw, "adv": 0.001}])
     steps.append(["drain", {"adv": 0.001}])
@@ -98,7 +98,7 @@ def gen_cases(tier, seed):
         add(k=k, nw=[i for i in range(k) if rng.random() < 0.4], logger=[rng.random() < 0.3 for _ in range(k)],
             suball=[rng.random() < 0.3 for _ in range(k)], rst=[i for i in range(k) if rng.random() < 0.25],
             dest=rng.choice("bbax"), type=rng.choice(types), mon_nw=rng.random() < 0.2, npub=rng.choice([1, 1, 2]),
-            pub_sub=rng.choice([None, None, None, "ok", "nw"]))
+            pub_sub=rng.choice([None, None, None, "ok", "nw"]), dh=rng.choice([0, 0, 0, 1, 3, 5]))
         if rng.random() < 0.15:
             cases[-1].update(mon_all=True, mon_nw=False, logger=[False] * k)
         if rng.random() < 0.15:
